@@ -7,6 +7,7 @@ import (
 )
 
 var registry = map[string]func() *check.Property{
+	"C01": C01,
 	"C02": C02,
 	"C03": C03,
 	"C05": C05,
